@@ -72,6 +72,7 @@ static void child_run(const cfg_t *c, long serial, res_t *r)
 {
     char path[200]; memset(r, 0, sizeof(*r));
     setenv("PARSEC_MCA_bind_threads", "0", 1);
+    setenv("HWLOC_COMPONENTS", "-x86", 0);     /* topology discovery without the cpuid backend (it binds to every core in turn: slow on a loaded machine) */
     unsetenv("PARSEC_MCA_verif_p1"); unsetenv("PARSEC_MCA_verif_alias"); unsetenv("PARSEC_MCA_mca_param_files");
     if (c->env) setenv("PARSEC_MCA_verif_p1", V_ENV[c->type], 1);
     if (c->senv) setenv("PARSEC_MCA_verif_alias", V_SENV[c->type], 1);
@@ -192,10 +193,13 @@ int main(int argc, char **argv)
         printf("replay: configuration passes\n"); return 0;
     }
     long serial = 0; cfg_t c;
-    /* quick: ov in {0,1}, mca in {0,1,3}, file in {-,P,S,PS}; thorough: the whole box */
-    int ovs[3] = { 0, 1, 2 }, novs = sx_tier_thorough ? 3 : 2, mcas[4] = { 0, 1, 3, 2 }, nmcas = sx_tier_thorough ? 4 : 3, nfiles = sx_tier_thorough ? 5 : 4, next_reap = 0;
-    for (c.type = 0; c.type < 3; c.type++) for (int io = 0; io < novs; io++) for (int im = 0; im < nmcas; im++) for (c.smca = 0; c.smca < 2; c.smca++)
-    for (c.env = 0; c.env < 2; c.env++) for (c.senv = 0; c.senv < 2; c.senv++) for (c.file = 0; c.file < nfiles; c.file++) for (c.early = 0; c.early < 2; c.early++) for (c.api = 0; c.api < 2; c.api++) {
+    /* quick: ov in {0,1}, mca in {0,2}, file in {-,P,PS}, registered after parsec_init, through parsec_init only (288 children);
+     * thorough: the whole box (3240 children) */
+    int T = sx_tier_thorough, ovs[3] = { 0, 1, 2 }, novs = T ? 3 : 2, mcas[4] = { 0, 2, 1, 3 }, nmcas = T ? 4 : 2, files[5] = { 0, 1, 3, 2, 4 }, nfiles = T ? 5 : 3, next_reap = 0;
+    /* nesting: the sources that interact most vary fastest, so that even a deadline-cut prefix mixes types and levels */
+    for (c.api = 0; c.api < (T ? 2 : 1); c.api++) for (c.early = 0; c.early < (T ? 2 : 1); c.early++) for (int ifl = 0; ifl < nfiles; ifl++) for (c.senv = 0; c.senv < 2; c.senv++) for (c.smca = 0; c.smca < 2; c.smca++)
+    for (c.env = 0; c.env < 2; c.env++) for (int im = 0; im < nmcas; im++) for (int io = 0; io < novs; io++) for (c.type = 2; c.type >= 0; c.type--) {
+        c.file = files[ifl];
         c.ov = ovs[io]; c.mca = mcas[im];
         if (c.api && (c.mca || c.smca)) continue;          /* --mca needs parsec_init */
         serial++;
